@@ -239,6 +239,7 @@ def stepJson (jq : Bool) (dir input obs : String) : String :=
 
 def stepC14 (op obs : String) : String :=
   if (obs.splitOn "panic").length > 1 then "PROPFAIL go-panic" else
+  if (obs.splitOn "timeout").length > 1 then "PROPFAIL does-not-terminate" else
   match words op with
   | "radix" :: dir :: args => stepRadix dir args obs
   | ["json", dir, input] => stepJson false dir input obs
